@@ -9,10 +9,10 @@ PROP = "C01"
 
 def workload(tier: str, seed: int) -> tuple[list[dict], dict]:
     if tier == "quick":
-        want = {"corpus": 1, "core-exh": 110, "core-rand": 60, "edge": 15, "bunched": 20}
+        want = {"corpus": 1, "core-exh": 110, "core-rand": 60, "edge": 15, "bunched": 20, "loop-families": 1}
         ks, s2 = (2,), 1
     else:
-        want = {"corpus": 1, "core-exh": 100000, "core-rand": 1500, "edge": 150, "bunched": 1000}
+        want = {"corpus": 1, "core-exh": 100000, "core-rand": 1500, "edge": 150, "bunched": 1000, "loop-families": 1}
         ks, s2 = (2, 3), 3
     defs = lcase.definitions(tier, seed, want)
     cases, stats = lcase.s1_cases(defs, seed, k_list=ks, schedules=2, corpus_schedules=8, check_extra=False)
